@@ -4,11 +4,12 @@ use crate::support::*;
 use educe::Educe;
 use core::cmp::Ordering;
 #[derive(Educe)]
-#[educe(PartialOrd, Ord, PartialEq, Eq)]
-pub struct T { b: A<0>, #[educe(Ord(rank = "3", method = m_cmp))] data: A<0>, #[educe(Ord(rank = 0x1, method(m_cmp)))] r#type: A<0> }
+#[repr(C, u8)]
+#[educe(PartialEq, PartialOrd, Eq)]
+pub enum T { C(#[educe(PartialOrd(method(m_pcmp)))] A<0>, #[educe(PartialOrd(rank = "+5"))] A<0>) }
 
-pub fn values() -> Vec<T> { vec![T { b: A(0), data: A(0), r#type: A(0) }, T { b: A(0), data: A(0), r#type: A(1) }, T { b: A(0), data: A(0), r#type: A(7) }, T { b: A(0), data: A(1), r#type: A(0) }, T { b: A(0), data: A(1), r#type: A(1) }, T { b: A(0), data: A(1), r#type: A(7) }, T { b: A(0), data: A(7), r#type: A(0) }, T { b: A(0), data: A(7), r#type: A(1) }, T { b: A(0), data: A(7), r#type: A(7) }, T { b: A(1), data: A(0), r#type: A(0) }, T { b: A(1), data: A(0), r#type: A(1) }, T { b: A(1), data: A(0), r#type: A(7) }, T { b: A(1), data: A(1), r#type: A(0) }, T { b: A(1), data: A(1), r#type: A(1) }, T { b: A(1), data: A(1), r#type: A(7) }, T { b: A(1), data: A(7), r#type: A(0) }, T { b: A(1), data: A(7), r#type: A(1) }, T { b: A(1), data: A(7), r#type: A(7) }, T { b: A(7), data: A(0), r#type: A(0) }, T { b: A(7), data: A(0), r#type: A(1) }, T { b: A(7), data: A(0), r#type: A(7) }, T { b: A(7), data: A(1), r#type: A(0) }, T { b: A(7), data: A(1), r#type: A(1) }, T { b: A(7), data: A(1), r#type: A(7) }, T { b: A(7), data: A(7), r#type: A(0) }, T { b: A(7), data: A(7), r#type: A(1) }, T { b: A(7), data: A(7), r#type: A(7) }] }
-pub fn show(x: &T) -> String { #[allow(unused_variables)] match x { T { b: p0, data: p1, r#type: p2 } => format!("T({},{},{})", sv(p0), sv(p1), sv(p2)) } }
-pub fn o_disc(x: &T) -> i128 { match x { T { b: _, data: _, r#type: _ } => 0 } }
-pub fn o_cmp(a: &T, b: &T) -> Ordering { match (a, b) { (T { b: a0, data: a1, r#type: a2 }, T { b: b0, data: b1, r#type: b2 }) => { let c = ::core::cmp::Ord::cmp(a0, b0); if c != Ordering::Equal { return c; } let c = m_cmp(a2, b2); if c != Ordering::Equal { return c; } let c = m_cmp(a1, b1); if c != Ordering::Equal { return c; } Ordering::Equal } } }
-pub fn run(out: &mut Out) { let vs = values(); for (i, a) in vs.iter().enumerate() { for (j, b) in vs.iter().enumerate() { let e = o_cmp(a, b); let g = ::core::cmp::Ord::cmp(a, b); out.check(g == e, "ord_25", "cmp", || format!("cmp({}, {}) = {:?} expected {:?}", show(a), show(b), g, e)); let g2 = ::core::cmp::PartialOrd::partial_cmp(a, b); out.check(g2 == Some(e), "ord_25", "partial_is_some_cmp", || format!("partial_cmp({}, {}) = {:?} expected Some({:?})", show(a), show(b), g2, e)); } } }
+pub fn values() -> Vec<T> { vec![T::C(A(0), A(0)), T::C(A(0), A(1)), T::C(A(0), A(7)), T::C(A(1), A(0)), T::C(A(1), A(1)), T::C(A(1), A(7)), T::C(A(7), A(0)), T::C(A(7), A(1)), T::C(A(7), A(7))] }
+pub fn show(x: &T) -> String { #[allow(unused_variables)] match x { T::C(p0, p1) => format!("C({},{})", sv(p0), sv(p1)) } }
+pub fn o_disc(x: &T) -> i128 { match x { T::C(_, _) => 0 } }
+pub fn o_pcmp(a: &T, b: &T) -> Option<Ordering> { match (a, b) { (T::C(a0, a1), T::C(b0, b1)) => { match m_pcmp(a0, b0) { Some(Ordering::Equal) => (), x => return x } match ::core::cmp::PartialOrd::partial_cmp(a1, b1) { Some(Ordering::Equal) => (), x => return x } Some(Ordering::Equal) } } }
+pub fn run(out: &mut Out) { let vs = values(); for (i, a) in vs.iter().enumerate() { for (j, b) in vs.iter().enumerate() { let e = o_pcmp(a, b); let g = ::core::cmp::PartialOrd::partial_cmp(a, b); out.check(g == e, "ord_25", "partial_cmp", || format!("partial_cmp({}, {}) = {:?} expected {:?}", show(a), show(b), g, e)); } } }
